@@ -18,12 +18,40 @@ def run(rep, prog, tier):
     r2(rep, prog)
     r4(rep, prog)
     r5(rep, prog)
+    r7(rep, prog)
     rep.rule("C12-R6", "score memo invalidation (shared with C13-R2): a scorer whose score() memoises its result in a field of self (RequiredOptionalScorer.score_cache) stores into that field in every DocSet method that moves a sub-docset — advance, seek and seek_danger — so the score reported for a document is the one computed for that document, however it was reached")
     from ..report import Retag
     from .c13 import memo_invalidation
     memo_invalidation(Retag(rep, "C12-R6"), prog, "C12-R6")
     tab = ct.const_int_array(prog, "tantivy::fieldnorm::code::FIELD_NORMS_TABLE")
     rep.check(tab is not None and len(tab) == 256 and all(tab[i] > tab[i - 1] for i in range(1, 256)) and tab[0] == 0, "C12-R3", "FIELD_NORMS_TABLE is a strictly increasing 256-entry table", "quantisation is order preserving", "FIELD_NORMS_TABLE is not a strictly increasing 256-entry table starting at 0")
+
+
+def r7(rep, prog):
+    """ScoreCombiner::clear forgets everything update accumulated"""
+    import re
+    from ..mergecov import Aliases, fmt_path
+    R = "C12-R7"
+    rep.rule(R, "score combiners are reusable: for every impl of ScoreCombiner, clear() stores into every field that update() writes (the buffered union reuses one combiner per window slot: a field that survives clear() leaks the score of an earlier document into a later one)")
+    types = {}
+    for n in prog.bodies:
+        m = re.match(r"^<(.+) as tantivy::query::score_combiner::ScoreCombiner>::([a-z_]+)$", n)
+        if m:
+            types.setdefault(m.group(1), {})[m.group(2)] = n
+    rep.floor(R, "ScoreCombiner implementations", len(types), 3)
+    for ty, ms in sorted(types.items()):
+        if "update" not in ms or "clear" not in ms:
+            rep.fail(R, "%s: update/clear" % short(ty), "cannot establish: %s lacks update or clear" % ty)
+            continue
+
+        def writes(fid):
+            b = prog.bodies[fid]
+            al = Aliases(b, {1: "self"})
+            return {u[2][:1] for u in al.uses() if u[1] == "self" and u[0] in ("w", "rw") and u[2]}
+        wu, wc = writes(ms["update"]), writes(ms["clear"])
+        missing = sorted(fmt_path(x) for x in wu - wc)
+        rep.check(not missing, R, "%s::clear resets what update accumulates" % short(ty), "update writes %s, clear writes %s" % (sorted(fmt_path(x) for x in wu), sorted(fmt_path(x) for x in wc)),
+                  "`%s`::clear does not reset self%s, which update() accumulates into: a reused combiner carries the score of an earlier document" % (ty, ", self".join(missing)), site=prog.bodies[ms["clear"]].span)
 
 
 def r4(rep, prog):
